@@ -344,11 +344,12 @@ func (s *Scheme) runDKG(ctx context.Context, membership *membership, dkgProtocol
 		s.syncsInProgress[string(membersSyncTopicHash)] = sync.HandleMessage
 		s.lock.Unlock()
 
-		defer func() {
+		// Must run before the result is handed over: once KeyGen returns, the next KeyGen may register the same topic
+		cleanupMembersSync := func() {
 			s.lock.Lock()
 			delete(s.syncsInProgress, string(membersSyncTopicHash))
 			s.lock.Unlock()
-		}()
+		}
 
 		go sync.Synchronize(ctx, func([]uint16) {
 			close(membershipConsensus)
@@ -357,11 +358,14 @@ func (s *Scheme) runDKG(ctx context.Context, membership *membership, dkgProtocol
 		select {
 		case <-membershipConsensus:
 		case <-ctx.Done():
+			cleanupMembersSync()
 			resultChan <- mpcResult{err: fmt.Errorf("could not reach consensus on membership")}
 			return
 		}
 
 		result, err := dkgProtocolInstance.KeyGen(ctx)
+
+		cleanupMembersSync()
 
 		resultChan <- mpcResult{data: result, err: err, parties: parties}
 
@@ -527,15 +531,18 @@ func (s *Scheme) Sign(c context.Context, msgHash []byte, topic string) ([]byte, 
 		s.Logger.Infof("Synchronizing on pre-signing topic %s with %v", hex.EncodeToString(syncTopic)[:8], signers)
 
 		err = sync.Synchronize(ctx, func([]uint16) {
-			defer cleanupSyncTopic()
-			defer cleanup()
-
 			s.Logger.Debugf("Time elapsed to ensure all signers for topic %s are ready: %v", topicHashText[:8], time.Since(start2))
 
 			signature, err := s.runSigningProtocol(ctx, signingProtocol, msgHash)
 			if err == nil {
 				atomic.StoreUint32(&signedSuccessfully, 1)
 			}
+
+			// Free the topic before handing over the result: once Sign returns, the topic may be signed on again,
+			// and a clean up that runs afterwards would remove the registrations of that next session
+			cleanup()
+			cleanupSyncTopic()
+
 			resultChan <- struct {
 				sig []byte
 				err error
